@@ -142,6 +142,8 @@ def upload(case, cfg_override=None, **driver_kw):
     plc = LogixDriver("192.168.1.10", **driver_kw)
     try:
         plc.open()
+    except harness.StepBudgetExceeded:
+        return p, tgt, None, [Disc("open.nonterminating", "tag upload kept sending requests (step budget exceeded)")]
     except PycommError as e:
         chain, x = [], e
         while x is not None:
